@@ -48,7 +48,12 @@ pub fn check(h: &History, obs: &mut Obs) -> CheckResult {
 fn run(ctx: &Ctx) {
     // Small buffers with many operations: realigns are frequent because chunk sizes are small.
     let n = ctx.share(ctx.tier.pick(400_000, 6_000_000));
-    ctx.run_cases("history", n, history_strategy(600, 60, false), check);
+    let strat = (history_strategy(600, 60, false), prop_oneof![3 => Just(0usize), 2 => 1usize..=64])
+        .prop_map(|(mut h, consumed)| {
+            h.consumed_before = consumed;
+            h
+        });
+    ctx.run_cases("history", n, strat, check);
     // Long inputs with the default/4096 chunk: realign needs > 2 chunks advanced.
     let big = (
         history_strategy(40_000, 40, false),
